@@ -6,6 +6,7 @@ import (
 	"encoding/json"
 	"flag"
 	"fmt"
+	"io"
 	"math"
 	"math/rand"
 	"os"
@@ -220,6 +221,43 @@ func construct(sc scenario, opts *neat.Options, rec *epochRec) (*genetics.Popula
 		return p, g, "NewPopulation", err
 	case "rich":
 		g := richStart()
+		p, err := genetics.NewPopulation(g, opts)
+		return p, g, "NewPopulation", err
+	case "pool-notrait", "pool-rich":
+		// a population ASSEMBLED from the genomes of a short operator lineage (originals, not copies): organisms whose
+		// genomes carry the traces of many operator applications (disabled, recurrent, re-used, trait-less genes) from the
+		// first epoch on
+		l := &lineage{in: newInterner(), opts: opts, out: json.NewEncoder(io.Discard), rep: &vhu.Report{}, stats: map[string]int{}}
+		kind := 1 // rich
+		if sc.Start == "pool-notrait" {
+			kind = -2
+		}
+		l.reset(kind)
+		for i := 0; i < 120; i++ {
+			l.step()
+		}
+		p := genetics.VerifNewEmptyPopulation()
+		a, b := l.pop.VerifCounters()
+		p.VerifSetCounters(a, b)
+		var orgs []*genetics.Organism
+		for _, m := range l.pool {
+			o, _ := genetics.NewOrganism(0, m.g, 1)
+			orgs = append(orgs, o)
+		}
+		for i := 0; len(orgs) < opts.PopSize; i++ {
+			d, err := l.pool[i%len(l.pool)].g.VerifDuplicate(1000 + i)
+			if err != nil {
+				return nil, nil, "", err
+			}
+			o, _ := genetics.NewOrganism(0, d, 1)
+			orgs = append(orgs, o)
+		}
+		orgs = orgs[:opts.PopSize]
+		p.Organisms = orgs
+		err := p.VerifSpeciate(opts.NeatContext(), orgs)
+		return p, nil, "assembled", err
+	case "notrait":
+		g := noTraitStart()
 		p, err := genetics.NewPopulation(g, opts)
 		return p, g, "NewPopulation", err
 	case "outfirst":
